@@ -98,8 +98,8 @@ type boardRec struct {
 	inherit int      // board whose content this one starts from (-1: none)
 	kind    string
 	depth   int
-	open    int // offset of '{' (-1: file root or imported board)
-	close   int // offset of '}'
+	open    int  // offset of '{' (-1: file root or imported board)
+	close   int  // offset of '}'
 	dotted  bool // declared as `layers.x: {`
 	// printer state
 	edgeCount map[string]int
@@ -207,7 +207,7 @@ type pctx struct {
 	inline bool
 }
 
-func (p *printer) off() int   { return p.sb.Len() }
+func (p *printer) off() int { return p.sb.Len() }
 func (p *printer) w(s string) {
 	if p.crlf {
 		s = strings.ReplaceAll(s, "\n", "\r\n")
